@@ -28,7 +28,9 @@ func init() {
 	register(&core.Scenario{Name: "c13-sub", Property: "C13", Weight: 1, Run: c13})
 }
 
-var hostileNames = []string{"", ".", "..", "../x", "../../x", "a/../../x", "a/..", "/abs", "a//b", "a/", "/", "A", "a/./b", "..foo", "x/../../pre2/a", "../pre2/a", "../prefix/a"}
+var hostileNames = []string{"", ".", "..", "../x", "../../x", "a/../../x", "a/..", "/abs", "a//b", "a/", "/", "A", "a/./b", "..foo", "x/../../pre2/a", "../pre2/a", "../prefix/a",
+	// names that would mean something else once pasted into a URL
+	"a?n=1", "a#frag", "a/blobs/uploads/?mount=sha256:e3b0c44298fc1c149afbf4c8996fb92427ae41e4649b934ca495991b7852b855&from=pre2/a&", "a/blobs/uploads/?from=x&", "a/tags/list?last=", "a%2f..%2f..%2fx", "a/manifests/latest#", "a/blobs/sha256:e3b0c44298fc1c149afbf4c8996fb92427ae41e4649b934ca495991b7852b855?"}
 
 func c13(env *core.Env) {
 	c := env.C
@@ -52,7 +54,14 @@ func c13(env *core.Env) {
 			outside = append(outside, s)
 		}
 	}
-	view := ocifilter.Sub(backend, prefix)
+	// the registry under the view is either called directly or is an ociclient in
+	// front of a server (then names travel inside URLs)
+	overHTTP := c.Bool("backend-over-http", 1, 3)
+	var under ociregistry.Interface = backend
+	if overHTTP {
+		under, _ = httpHop(env, backend, &stackOpts{}, "hop")
+	}
+	view := ocifilter.Sub(under, prefix)
 	m := reg.NewModel(false)
 	m.StrictCodes = false
 	cfg := reg.GenConfig{
@@ -62,6 +71,7 @@ func c13(env *core.Env) {
 		Weights: reg.DefaultWeights(),
 		Uploads: true,
 		Stops:   true,
+		HTTPSafe: overHTTP,
 	}
 	cfg.Weights[reg.Repositories] = 10
 	g := reg.NewGen(c, m, cfg)
@@ -70,8 +80,8 @@ func c13(env *core.Env) {
 	if env.Tier == "thorough" && c.Bool("deep", 1, 3) {
 		n = c.Range("nops.deep", 40, 160)
 	}
-	env.Sample("prefix=%q siblings outside=%v view repos=%v", prefix, outside, cfg.Repos)
-	scopeOn := c.Bool("scope", 2, 3)
+	env.Sample("prefix=%q siblings outside=%v view repos=%v backend over HTTP=%v", prefix, outside, cfg.Repos, overHTTP)
+	scopeOn := c.Bool("scope", 2, 3) && !overHTTP // (a scope in the context does not travel over HTTP)
 	for i := 0; i < n; i++ {
 		op := g.Next()
 		nameClass := "wellformed"
@@ -87,7 +97,11 @@ func c13(env *core.Env) {
 		}
 		ctx := ctx0
 		var wantScope ociauth.Scope
-		if scopeOn {
+		unlimited := scopeOn && c.Bool("scope.unlimited", 1, 8)
+		if unlimited {
+			// the scope that contains every other scope has nothing to rewrite
+			ctx = ociauth.ContextWithScope(ctx0, ociauth.UnlimitedScope())
+		} else if scopeOn {
 			rs := []ociauth.ResourceScope{
 				{ResourceType: ociauth.TypeRepository, Resource: "a/b", Action: ociauth.ActionPull},
 				{ResourceType: ociauth.TypeRepository, Resource: op.Repo, Action: ociauth.ActionPush},
@@ -140,9 +154,15 @@ func c13(env *core.Env) {
 					env.Failf(class("backend-wrong-repo"), "%s through Sub(%q) mounts from %q, want exactly %q", op, prefix, call.Repo2, wantFrom)
 				}
 			}
-			if scopeOn && op.Kind < reg.UpResume {
+			if unlimited && op.Kind < reg.UpResume {
+				if call.Scope != ociauth.UnlimitedScope().String() {
+					env.Failf(class("scope-not-rewritten"), "%s: the unlimited auth scope in the context reached the backend as %q", op, call.Scope)
+				}
+			} else if scopeOn && op.Kind < reg.UpResume {
 				got := ociauth.ParseScope(call.Scope)
-				if !got.Equal(wantScope) {
+				// (a name with a colon in it does not survive the scope text syntax; the
+				// texts are compared then)
+				if !got.Equal(wantScope) && call.Scope != wantScope.String() {
 					env.Failf(class("scope-not-rewritten"), "%s: the auth scope in the context reached the backend as %q, want %q", op, call.Scope, wantScope.String())
 				}
 			}
